@@ -71,6 +71,18 @@ def run(ctx):
     roots = []
     for i in range(n):
         r = i % 4
+        if i % 8 == 7:
+            # an included template called with an expression over a parameter of the including template whose
+            # name is also (another) parameter of the included one
+            p1, p2 = ctx.rng.sample(["r", "phi", "a", "al", "x", "t1"], 2)
+            form = ctx.rng.choice(["{%s} - 2*{%s}", "{%s}/{%s}", "{%s}**2 + 3*{%s}"]) % (p1, p2)
+            files = {"inc/disp.xbb": "name Disp\nversion 1.0\n\nDgate(%s, 0.5) | 0\nRgate({%s}) | 1\n" % (form, p2),
+                     "main.xbb": 'name m\nversion 1.0\ninclude "inc/disp.xbb"\n\nDisp(%s={%s} + 1, %s=0.25) | [3, 1]\n' % (p1, p2, p2)}
+            root, real = c07.materialise(files)
+            roots.append(root)
+            cases.append({"files": real, "main": os.path.join(root, "main.xbb"), "root": root})
+            meta.append(("include-with-clashing-parameter-names", True))
+            continue
         if r == 0:
             s, info, _ = gen.gen_template(ctx.rng, {"depth": 2, "max_items": 5})
             t = gen.render(s)
